@@ -131,7 +131,7 @@ def spec_strategy(heavy: bool):
             'options': st.sampled_from(['E', 'P', 'Y', 'PY', 'S', 'Z'] if heavy else ['E', 'P', 'S', 'Z']),
             'callback': st.sampled_from(['u', 'u', 'u', 'k0', 'k1', 'D', 'R'] if heavy else ['u', 'u', 'k0', 'k1', 'D']),
         },
-    ).filter(lambda d: len(d) >= 1)
+    )
     small = st.integers(0, 7)
     leaves = [
         st.just(['READ']),
